@@ -103,6 +103,7 @@ def eventDone (fuel : Nat) (r : Nat) (e : Nat) (err : Bool) : M Unit := do
   if !err && !ev.val.errors && ev.success then
     let c ← childEv e sfxSuccess
     fireRaw r c (ev.successChans.getD ev.chans) 0
+  modEv e fun x => { x with selfDone := true }
   effectDone fuel r e true
 
 /-! ### tasks -/
@@ -545,11 +546,12 @@ def dispatcher : Nat → Nat → Nat → Nat → M Unit
     logE (.disp e)
     let ev ← getEv e
     if ev.cancelled then
+      modEv e fun x => { x with selfDone := true }
       effectDone fuel r e false
       return
     if ev.complete then
       if ev.cause.isNone then modEv e fun x => { x with cause := some e }
-      modEv e fun x => { x with effects := 1 }
+      modEv e fun x => { x with effects := 1, selfDone := false }
     let rc ← getComp r
     if rc.dirty then modComp r fun x => { x with cache := [], dirty := false }
     let rc ← getComp r
